@@ -10,7 +10,7 @@ BASE_OFF = ("cd /repo && env -u NFLOWS_VERIF /venv/bin/python -m pytest -ra -q -
 # id -> (technique, level text, level note, design ref)
 CHECKS = {
     "C20": ("icontract post-conditions on the real helpers (direct exhaustive small-shape driver + contracts "
-            "installed at the library's own call sites) + TorchDispatchMode write-watch and bitwise snapshots; big-integer predicates, mixed-dtype bin search, helpers called in the non-default floating dtype",
+            "installed at the library's own call sites) + TorchDispatchMode write-watch and bitwise snapshots; big-integer predicates, mixed-dtype bin search, helpers called in the non-default floating dtype; batches without rows for the reshape / repeat / sum helpers",
             "Runtime contracts evaluated on every helper for all shapes with <=4 dims and extents <=3 (<=4 thorough), "
             "four tensor layouts, structured and random values, against numpy reference semantics; argument "
             "immutability observed op-by-op. Held-on-what-was-observed, exhaustive only over the small-shape grid.",
@@ -21,7 +21,7 @@ CHECKS = {
 CHECKS["C01"] = (
     "autograd-Jacobian monitor: per-item reverse-mode Jacobian of the real forward pass (float64 world) -> slogdet vs the "
     "returned logabsdet, over the whole transform zoo x configurations x parameter policies x structured inputs; spline "
-    "functions driven directly with non-default boxes; hand-chained sum for composites; finite-difference cross-check (thorough); the same oracle on 'revalued' objects (built and called with other values, then loaded)",
+    "functions driven directly with non-default boxes; hand-chained sum for composites; finite-difference cross-check (thorough); the same oracle on 'revalued' objects (built and called with other values, then loaded); wide subjects (7-17 features, 5-8 channels), Householder vectors of unequal norm, Cauchy constructor arguments",
     "Every batch item's returned log-abs-det is compared with slogdet of that item's autograd Jacobian to 1e-7 (observed "
     "noise <= 2e-11), for all 45 transform families incl. wrappers, 2-D and image inputs, with/without context, six parameter "
     "policies (fresh, zero, randn 0.3/1/3, extreme), inputs on knots' neighbours, end-points and tail bounds. Sampled, not exhaustive.",
@@ -32,7 +32,7 @@ CHECKS["C01"] = (
 CHECKS["C02"] = (
     "round-trip monitor on the real forward/inverse (float64 deciding, float32 pass) with Jacobian-singular-value-scaled "
     "tolerances, log-det antisymmetry evaluated at inverse(y); spline functions driven directly in the inverse direction on "
-    "y-knots, their ulp neighbours and box end-points; revalued objects (called with other values, then loaded) as a pre-history",
+    "y-knots, their ulp neighbours and box end-points; revalued objects (called with other values, then loaded) as a pre-history; training-mode round trips for layers with batch-normalised conditioners",
     "inverse(forward(x)) ~ x, forward(inverse(y)) ~ y, logabsdet_inv(y) = -logabsdet_fwd(inverse(y)) and finiteness are checked per "
     "batch item for every invertible family x configuration x six parameter policies (incl. exactly zero and strongly non-uniform) "
     "x structured inputs, with tolerance 1e-7 in float64 scaled by the item Jacobian's extreme singular values only when the "
@@ -44,7 +44,7 @@ CHECKS["C02"] = (
 CHECKS["C06"] = (
     "taint / data-flow run of the real masked network after a call history (eval forward, load_state_dict of all-positive "
     "weights, train/eval toggle): positive-weight Jacobian gives the boolean reachability matrix of the executed computation; "
-    "bit-identity spot check with random weights; triangular-Jacobian monitor on the masked autoregressive transforms",
+    "bit-identity spot check with random weights; triangular-Jacobian monitor on the masked autoregressive transforms; residual blocks stacked by hand on layers with non-matching degrees (refused or autoregressive)",
     "For every enumerated architecture of both MADE copies (and the mixture-of-Gaussians subclass) the reachability matrix of the "
     "network as executed is measured; because all path products are positive nothing cancels, so 'no path' is 'no dependence for any "
     "weights'. Quick: a covering subset (~4.7k architectures), thorough: the full product (features 1-6 x hidden 1-8,16,33 x blocks 0-3 x "
@@ -53,7 +53,7 @@ CHECKS["C06"] = (
     "DESIGN.md section 3 C06")
 CHECKS["C07"] = (
     "bitwise identity monitor + single-element perturbation (metamorphic) monitor + autograd Jacobian sparsity/sign pattern on the "
-    "real coupling layers, masks enumerated exhaustively for 2..5 features with numeric values of both signs; the same calls on other memory layouts of the inputs; a twin built from a mask tensor that the caller then modifies",
+    "real coupling layers, masks enumerated exhaustively for 2..5 features with numeric values of both signs; the same calls on other memory layouts of the inputs; a twin built from a mask tensor that the caller then modifies; unconditional transform of the identity features against the library's Piecewise CDF built by hand with the layer's bins / tails / tail bound",
     "Every non-trivial subset mask for 2-5 features, with mask values drawn from {-2,-1,0 | 0.5,1,3}, for all seven coupling classes, "
     "2-D and image inputs, both directions, with/without context and unconditional transform: identity features compared bit-for-bit, "
     "each transformed input perturbed alone and every other output required bit-identical, own output monotone.",
@@ -63,7 +63,7 @@ CHECKS["C07"] = (
 CHECKS["C08"] = (
     "hand-chained reference monitor over random wrapper programs (Composite/Inverse nestings) in float64 and in the mixed "
     "default-float32 / .double() world; unique-id routing monitor for the multiscale composite against a pure-python model of the "
-    "documented routing, exhaustive over shapes x split_dim x stages up to a bound",
+    "documented routing, exhaustive over shapes x split_dim x stages up to a bound; CompositeCDFTransform against squash -> cdf -> squash^-1 chained from the caller's own objects after their values changed",
     "Wrapper results are compared with the parts applied by the harness in the stated order (outputs bitwise, log-dets to 1e-12, dtype "
     "included); multiscale inputs are distinct integers and stage i adds 10^(4+i), so each output value identifies its source "
     "coordinate and the stages it traversed; inverse(forward(x)) == x exactly; log-det bookkeeping checked with per-stage scales.",
@@ -73,7 +73,7 @@ CHECKS["C08"] = (
 CHECKS["C10"] = (
     "lock-step twin monitor over call histories: an uncached fresh instance synchronised through load_state_dict performs every "
     "value-returning call next to the real cached object; histories = exhaustive short ones + random long ones + a transition "
-    "tour (every reachable abstract cache state x every operation, followed by observing suffixes)",
+    "tour (every reachable abstract cache state x every operation, followed by observing suffixes); loads addressed to a parameter-owning sub-module, in-place updates of returned tensors, single-row batches",
     "After every forward / inverse / forward+backward-twice / deepcopy step of a history over {train, eval, use_cache, forward, "
     "inverse, training step, load_state_dict, .double()/.float()} the cached object's outputs, log-dets and input gradients "
     "are compared with an uncached twin holding the same parameters; exceptions the twin does not raise are violations. "
@@ -84,7 +84,7 @@ CHECKS["C10"] = (
 
 CHECKS["C09"] = (
     "order / continuity / range monitor over sorted grids evaluated by the real spline functions (uniform grid + every knot and its "
-    "ulp, 1e-9, 1e-6 neighbours + end-points + tail junction), both directions, float64 and float32; the same grids as column-major tensors; output boxes with non-representable ends",
+    "ulp, 1e-9, 1e-6 neighbours + end-points + tail junction), both directions, float64 and float32; the same grids as column-major tensors; output boxes with non-representable ends; asymmetric boxes with non-representable ends",
     "For 4 families x bounded boxes (square, shifted, non-square, up to 1e3) / linear tails (B 0.5..1e3) x bins 1-10 x parameter "
     "policies (exactly zero, randn 0.3/1/3, +-15 alternating) every grid row is checked for: non-decreasing, strictly growing where "
     "its own slope demands it, no jump across ulp/1e-9/1e-6 steps, end-points mapped to end-points, range kept, identity with zero "
@@ -95,7 +95,7 @@ CHECKS["C09"] = (
 CHECKS["C17"] = (
     "exception-type / finiteness monitor with single-probe batches placed on, one ulp inside/outside, 1e-6 inside/outside and far "
     "outside every domain boundary, for the restricted nonlinearities, the four spline functions (boxes and tail bounds 0.5..1e6, "
-    "float32 and float64) and their coupling / autoregressive / CDF wrappers; boxes whose square leaves the floating range, one-bin splines with tails, single-row batches",
+    "float32 and float64) and their coupling / autoregressive / CDF wrappers; boxes whose square leaves the floating range, one-bin splines with tails, single-row batches; double-precision inputs under a single-precision default dtype with non-representable bounds",
     "InputOutsideDomain (exactly the library's class or a subclass) must be raised iff the probe is outside the mathematical domain "
     "of that direction; in-domain probes must return finite numbers and raise nothing (any other exception type is a violation); "
     "unconstrained splines must accept every finite input and be the identity beyond the bound.",
@@ -105,7 +105,7 @@ CHECKS["C17"] = (
 CHECKS["C11"] = (
     "algebraic cross-check monitor between the real accessors (weight, weight_inverse, logabsdet, combined accessors, matrix) and "
     "the real forward / inverse passes, exhaustive over classes x features 1-6 x Householder counts 1..2f+3 x init modes, in "
-    "float64, float32 and the .double()-converted world, two rounds per object (second round on the filled cache)",
+    "float64, float32 and the .double()-converted world, two rounds per object (second round on the filled cache); tiny reflection vectors in single precision",
     "forward(x) = x W^T + b, inverse(y) = (y-b) W^-T, weight_inverse() W = I, logabsdet() = slogdet(W), combined accessors = separate "
     "ones, pass log-dets = +-logabsdet(), Householder Q Q^T = I, all to 1e-9 * cond(W) (float64); usability of every accepted "
     "constructor configuration (finite, cond < 1e8 at fresh init); parameter policies incl. tiny-norm reflection vectors.",
@@ -123,7 +123,7 @@ CHECKS["C14"] = (
 CHECKS["C12"] = (
     "metamorphic monitor over pairs of executions: whole batch vs rows alone (batch size 1) vs a permuted batch vs the same row among "
     "extreme in-domain companions vs duplicated rows, for forward / inverse / log_prob / transform_to_noise of transforms, flows and "
-    "distributions in eval mode, every variant on a fresh never-called deep copy of the model; the same batch in other memory layouts (feature-major, channels-last, strided rows)",
+    "distributions in eval mode, every variant on a fresh never-called deep copy of the model; the same batch in other memory layouts (feature-major, channels-last, strided rows); one far-out companion row (+-100) beside ordinary rows",
     "Row-wise agreement to 1e-9 (float64) between the variants for the whole transform zoo (2-D and image inputs, with/without "
     "context, never-initialised ActNorm included), generic / packaged flows and all distribution classes; companions straddle the tail "
     "bounds and domain end-points so that inside/outside masks differ between the variants.",
@@ -133,7 +133,7 @@ CHECKS["C13"] = (
     "TorchDispatchMode write-watch on every public call (schema is_write flags x storage identity of caller tensors, parameters, "
     "buffers) + bitwise before/after snapshots (incl. the storage surrounding views) + history-independence monitor (every call of a "
     "random call sequence vs the same call on a fresh never-called copy, bit for bit) + the repository's own test-suite run under a "
-    "class-level contract plugin (argument bit patterns and eval-mode state before/after each of ~670 wrapped calls); reuse/update phase: caller refills its argument tensors in place under no_grad, values change through train()..eval(), results compared bitwise with a never-called copy; training-mode flags of sub-modules and autograd status of buffers compared around every call; partly frozen flows",
+    "class-level contract plugin (argument bit patterns and eval-mode state before/after each of ~670 wrapped calls); reuse/update phase: caller refills its argument tensors in place under no_grad, values change through train()..eval(), results compared bitwise with a never-called copy; training-mode flags of sub-modules and autograd status of buffers compared around every call; partly frozen flows; a third of the calls under no_grad, tensors returned by earlier calls re-checked for bit changes after every later call, inverse called on the very tensor forward returned",
     "For transforms, flows and distributions in eval and training mode, inputs/context presented plain, as slices of a larger tensor, "
     "non-contiguous and as requires_grad leaves: no ATen op may write into caller or (eval) model storage, snapshots must be bit-identical, "
     "training-mode writes must be on the documented statistics only, and results must not depend on earlier calls (mixed operations, mixed "
@@ -145,7 +145,7 @@ CHECKS["C15"] = (
     "twin monitor: model A (seed s1, after a pre-save history) vs model B built from the same constructor arguments under another "
     "seed and loaded with A's state dict (strict, through torch.save/load in a BytesIO); identical call sequences (training-mode "
     "forward first, then eval forward / inverse / log_prob / sample under a common re-seed) must give bit-identical results and "
-    "state dicts",
+    "state dicts; reload into an instance built with other constructor-given buffer values of the same shapes (masks, permutations, affine constants)",
     "All zoo transform families (every source of constructor-time randomness), generic and packaged flows and all distribution classes, "
     "pre-save histories {fresh, training steps, data-dependent initialisation, eval calls filling caches}; results compared with "
     "torch.equal-on-bits; key sets compared; cases where B agreed with A even before loading are reported as trivial.",
@@ -155,7 +155,7 @@ CHECKS["C16"] = (
     "finite-difference monitor in float64: directional derivatives from back-propagation vs Richardson-extrapolated central "
     "differences (h, h/2 with kink detection and resampling) - jointly over all parameters, per parameter tensor, for inputs and "
     "context; back-propagation executed twice (also after an inverse call filled a weight cache first); finiteness at inputs with exact zeros; "
-    "float32-twin monitor (gradients of the .float() copy vs the float64 ones, norm-wise); library distributions as subjects too; sampling-path direction (sample_and_log_prob under a fixed seed as a function of context and parameters); UMNN inverse differentiability probe (open finding F-UMNN-INVERSE-GRAD)",
+    "float32-twin monitor (gradients of the .float() copy vs the float64 ones, norm-wise); library distributions as subjects too; sampling-path direction (sample_and_log_prob under a fixed seed as a function of context and parameters); UMNN inverse differentiability probe (open finding F-UMNN-INVERSE-GRAD); user-written bounded conditioners exposing hidden_features; first calls made under inference_mode",
     "Relative agreement 1e-5 (observed <= 4e-9) for the whole transform zoo with smooth conditioners and small flows, both directions, "
     "training and evaluation mode; a parameter whose finite difference is non-zero must receive a finite gradient; backward must "
     "succeed repeatedly.",
@@ -168,7 +168,7 @@ CHECKS["C19"] = (
     "single-precision rounding plus input rounding amplified by the local conditioning measured on the float64 twin (item Jacobian; "
     "multi-scale finite-difference sensitivity of the log-det); finiteness, no exception, result dtype = input dtype; dense element-wise "
     "runs of the four spline functions (1e5-1e6 points per family/direction incl. knots); wide linear layers (192-512 features); "
-    "late-conversion monitor (model used in float32, then .double(): must equal the twin converted before its first call)",
+    "late-conversion monitor (model used in float32, then .double(): must equal the twin converted before its first call); construction-time default-dtype clause (twin built under a float64 default and loaded); non-representable RQ tail bounds",
     "All zoo families x moderate parameter policies (fresh, randn 0.3, randn 1) x |x| <= 6 / inside boxes, both directions, flows' "
     "log_prob, BatchNorm in training mode on uncentred data (running statistics compared too).",
     "Bound constants: 64 eps32 for the result, 16 eps32 |J| for outputs, 256 (1024 inverse) eps32 x sensitivity for log-dets; items with "
@@ -179,7 +179,7 @@ CHECKS["C18"] = (
     "icontract post-conditions (named predicates) installed at class level on the real Distribution.log_prob / sample / "
     "sample_and_log_prob and Flow.sample_and_log_prob, driven over all distribution and flow classes x num_samples x batch_size x "
     "context (incl. shape-changing image flows and context-free user bases); documented-rejection probes; duplicate-draw and two-sample KS "
-    "monitors for batched generation; shape contracts on the repository's own test-suite run under a class-level contract plugin; rejection probes over all row-count pairs and all (bad count, other count) combinations",
+    "monitors for batched generation; shape contracts on the repository's own test-suite run under a class-level contract plugin; rejection probes over all row-count pairs and all (bad count, other count) combinations; scalar (label) context items of shape [rows] through nn.Embedding",
     "Shapes [rows] / [n,*event] / [rows,n,*event] are asserted on every call (incl. the library's internal ones) for num_samples 1,2,5,7 x "
     "batch_size none,1,2,3,5,7,8 x context none / 1 / 3 rows / embedding net x event shapes [1],[2],[3],[2,3],[2,1,2]; valid calls must not "
     "raise; mismatching context rows must give ValueError and counts in {0,-1,2.0,'3',None} TypeError; batched sampling must not "
@@ -216,7 +216,7 @@ CHECKS["C04"] = (
 CHECKS["C05"] = (
     "exact-summation / quadrature / Gauss-Legendre / importance-sampling monitors of exp(log_prob) for every density-returning object, "
     "Kolmogorov-Smirnov / exact-tail (Chernoff) monitors of its samples against CDFs and probabilities derived from its OWN log_prob "
-    "(3-D tensor-grid marginals for non-factorised MADE mixtures, saturated Bernoulli logits), and expectation monitors for mean()",
+    "(3-D tensor-grid marginals for non-factorised MADE mixtures, saturated Bernoulli logits), and expectation monitors for mean(); single-precision KDE against its double-precision twin for data far from the origin; reported mean of MG1Uniform against the analytic expectation and the sample mean",
     "Bernoulli: exact sum over {0,1}^D; Standard / Diagonal / ConditionalDiagonal normal and MADEMoG: quadrature for 1-2 event dimensions, "
     "self-normalised importance sampling for 3-6; BoxUniform / MG1Uniform: density x support volume; LotkaVolterraOscillating: 4-D "
     "tensor Gauss-Legendre; gaussian_kde_log_eval over the query space; 2e5 samples per object against coordinate-conditional or grid-"
